@@ -114,6 +114,20 @@ are the same in both orders of padding; the corners are the mean of "rows then c
 def extrapolate2d (y : List (List Rat)) (pr pc wt wb wl wr : Nat) : List (List Rat) :=
   avg2 (padCols (padRows y pc wl wr) pr wt wb) (padRows (padCols y pr wt wb) pc wl wr)
 
+/-- (specification side) where the value at output position `k` of a padded axis comes from when the
+data are a line: itself, except on a side whose effective window `min w n` is one point, where it is
+the edge position -/
+def clampIdx (pad n wl wr k : Nat) : Nat :=
+  if k < pad then (if min wl n = 1 then pad else k)
+  else if pad + n ≤ k then (if min wr n = 1 then pad + n - 1 else k)
+  else k
+
+/-- (specification side) the right-hand side of `C18.extrap2d_planar_clamped`: what planar data
+`a + b·(pr+i) + c·(pc+j)` are claimed to be padded to -/
+def planarClamped (a b c : Rat) (M N pr pc wt wb wl wr : Nat) : List (List Rat) :=
+  (List.range (M + 2 * pr)).map fun k => (List.range (N + 2 * pc)).map fun l =>
+    a + b * (((clampIdx pr M wt wb k : Nat) : Int) : Rat) + c * (((clampIdx pc N wl wr l : Nat) : Int) : Rat)
+
 /-! ### `pad_edges2d(data, pad_length, 'extrapolate', extrapolate_window)`: the argument handling -/
 
 /-- `_validation._get_row_col_values`: a scalar (or a one-item sequence, which `_check_scalar` treats
